@@ -110,6 +110,11 @@ class Ctx:
                    'arguments passed by name to a callee of the package sit in the positions of the parameters of the same name (no two swapped); '
                    'no parameter defaults to a mutable object (it would be shared between calls, hands and instances)',
                    got='; '.join(w for _, w in sw[:2]) if sw else '')
+            dyn = _dynamic(self.prog, fi)
+            chk.ob(f'{chk.pid}.static', qn, not dyn, loc(fi, dyn[0][0]) if dyn else loc(fi, fi.node),
+                   'the function runs when and as its body says: no decorator beyond the plain ones of the code base (a cache answers from '
+                   'an earlier state; a wrapper runs other code), and its class has no hook that reroutes attribute access or rewrites class '
+                   'attributes (__getattr__, __setattr__, __init_subclass__, a metaclass)', got='; '.join(w for _, w in dyn[:3]) if dyn else '')
             chk.ob(f'{chk.pid}.defined', qn, not bad, loc(fi, bad[0][1]) if bad else loc(fi, fi.node),
                    'every name the function reads is bound on the way: nothing is read that no statement defines, and a local bound '
                    'in a try body is also bound by each handler that falls through to its use (no NameError part-way)',
@@ -159,3 +164,32 @@ class Ctx:
 
 
 __all__ = ['Ctx', 'stmt_text']
+
+
+PLAIN_DECORATORS = {'abstractmethod', 'classmethod', 'staticmethod', 'property', 'dataclass', 'total_ordering', 'unique', 'overload', 'override'}
+CLASS_HOOKS = {'__init_subclass__', '__getattr__', '__getattribute__', '__setattr__', '__delattr__', '__set_name__', '__class_getitem__',
+               '__prepare__', '__instancecheck__', '__subclasscheck__', '__new__'}
+
+
+def _dynamic(prog, fi):
+    """[(node, message)]: decorators outside the closed set of the code base on the function, rerouting hooks on its class (and bases)"""
+    out = []
+    for d in fi.node.decorator_list:
+        head = d.func if isinstance(d, ast.Call) else d
+        name = head.id if isinstance(head, ast.Name) else head.attr if isinstance(head, ast.Attribute) else ast.unparse(head)
+        if name in PLAIN_DECORATORS or (isinstance(head, ast.Attribute) and head.attr in ('setter', 'getter', 'deleter')):
+            continue
+        out.append((d, f'decorator @{ast.unparse(d)}'))
+    ci = fi.cls
+    if ci is not None:
+        for c in prog.mro(ci):
+            for h in CLASS_HOOKS & set(c.methods):
+                out.append((c.methods[h].node, f'{c.name}.{h}'))
+            if any(k.arg == 'metaclass' for k in c.node.keywords):
+                out.append((c.node, f'{c.name} has a metaclass'))
+            for d in c.decorators:
+                head = d.func if isinstance(d, ast.Call) else d
+                name = head.id if isinstance(head, ast.Name) else head.attr if isinstance(head, ast.Attribute) else ast.unparse(head)
+                if name not in PLAIN_DECORATORS:
+                    out.append((d, f'class decorator @{ast.unparse(d)} on {c.name}'))
+    return out
